@@ -23,6 +23,7 @@ from typing import cast, Any, Optional, Union, NoReturn
 from urllib.parse import urlsplit
 from urllib.request import urlopen
 from urllib.error import URLError
+from xml.sax.saxutils import escape
 
 import elementpath.aliases as ta
 
@@ -982,21 +983,24 @@ def evaluate__analyze_string(self: XPathFunction, context: ta.ContextType = None
     lines = ['<analyze-string-result xmlns="{}">'.format(XPATH_FUNCTIONS_NAMESPACE)]
     k = 0
 
+    def text(start: int, stop: Optional[int] = None) -> str:
+        return escape(input_string[start:stop], {'\r': '&#13;'})
+
     while k < len(input_string):
         match = compiled_pattern.search(input_string, k)
         if match is None:
-            lines.append('<non-match>{}</non-match>'.format(input_string[k:]))
+            lines.append('<non-match>{}</non-match>'.format(text(k)))
             break
         elif not match.groups():
             start, stop = match.span()
             if start > k:
-                lines.append('<non-match>{}</non-match>'.format(input_string[k:start]))
-            lines.append('<match>{}</match>'.format(input_string[start:stop]))
+                lines.append('<non-match>{}</non-match>'.format(text(k, start)))
+            lines.append('<match>{}</match>'.format(text(start, stop)))
             k = stop
         else:
             start, stop = match.span()
             if start > k:
-                lines.append('<non-match>{}</non-match>'.format(input_string[k:start]))
+                lines.append('<non-match>{}</non-match>'.format(text(k, start)))
                 k = start
 
             match_items = []
@@ -1014,7 +1018,7 @@ def evaluate__analyze_string(self: XPathFunction, context: ta.ContextType = None
                             match_items.append('</group>')
                         unclosed_groups = 0
 
-                    match_items.append(input_string[k:_start])
+                    match_items.append(text(k, _start))
 
                 if _start == _stop:
                     if group_levels[idx] <= group_levels[idx - 1]:
@@ -1025,24 +1029,24 @@ def evaluate__analyze_string(self: XPathFunction, context: ta.ContextType = None
                     k = _stop
                 elif idx == compiled_pattern.groups:
                     k = _stop
-                    match_items.append(group_tmpl.format(idx, input_string[_start:k]))
+                    match_items.append(group_tmpl.format(idx, text(_start, k)))
                     match_items.append('</group>')
                 else:
                     next_start = match.span(idx + 1)[0]
                     if next_start < 0 or _stop < next_start or _stop == next_start \
                             and group_levels[idx + 1] <= group_levels[idx]:
                         k = _stop
-                        match_items.append(group_tmpl.format(idx, input_string[_start:k]))
+                        match_items.append(group_tmpl.format(idx, text(_start, k)))
                         match_items.append('</group>')
                     else:
                         k = next_start
-                        match_items.append(group_tmpl.format(idx, input_string[_start:k]))
+                        match_items.append(group_tmpl.format(idx, text(_start, k)))
                         unclosed_groups += 1
 
             for _ in range(unclosed_groups):
                 match_items.append('</group>')
 
-            match_items.append(input_string[k:stop])
+            match_items.append(text(k, stop))
             k = stop
             lines.append('<match>{}</match>'.format(''.join(match_items)))
 
